@@ -337,6 +337,8 @@ def scenario(rng, idx=None):
             for _ in range(1 + rng.below(3)):
                 lo = rng.below(n + 2)
                 rs.append(f"{lo}:{rng.choice([0, lo, lo + 1, lo + 2, lo + 3, n + 1, 100])}")
+            if rng.chance(1, 3):
+                out.append(f"fail {1 + rng.below(3)}")       # one of the three store calls of a deletion fails
             out.append(f"delmsg {rng.choice([owner, ms])} {T} {','.join(rs)}" + rng.choice(["", " hard=1"]))
             if _maybe_restart(rng, out, 8):
                 reattach()
@@ -465,6 +467,7 @@ def scenario_chan(rng):
             out.append(f"sub S3 {C}")
     pub(owner)
     out.append(f"get S3 {C} data")
+    out.append(f"get {sub_s} {C} data")          # the subscriber (with or without R) under the channel spelling
     out.append(f"get {owner} {T} sub")
     if rng.chance(1, 3):
         out.append(f"deltopic {owner} {T}" + rng.choice(["", " hard=1"]))
@@ -695,6 +698,11 @@ def scenario_me(rng, k):
         for _ in range(6 + rng.below(12)):
             out.append(rng.choice(steps))
             _maybe_restart(rng, out, 30)
+        # a member who reads but has muted the group, on `me` and not attached to it, while another member acknowledges a message
+        # (receipts are relayed on `me` only with presence permission)
+        (m0, m1), u0 = mem, ses[mem[0]]
+        out += [f"sub {owner} {T}", f"setsub {owner} {T} user={u0} mode=JRW", f"setsub {owner} {T} user={ses[m1]} mode=JRWP", f"leave {m0} {T}", f"sub {m0} me",
+                f"pub {owner} {T} CN", f"sub {m1} {T}", f"note {m1} {T} {rng.choice(['read', 'recv'])} 1", f"note {owner} {T} kp 0"]
     else:                    # everything at once: `me`, a p2p topic, a group and a channel
         out.append("newgrp S1" + rng.choice(["", " chan=1"]))
         ntop = 1
